@@ -278,7 +278,8 @@ Definition sole_output_canonical (x : txin) : bool :=
   match i_out x with [v] => is_canonical_denomination v | _ => false end.
 Definition ironwood_is_canonical_crossing (x : txin) (c : config) (m : manifest) : bool :=
   (len (o_in x) =? 1) && (len (i_in x) =? 0) && (m_i m =? 0) && (m_o m <=? 1) && (m_s m =? 0)
-  && (m_t m =? 0) && sole_output_canonical x && is_boundary (interval c) (anchor_height c).
+  && (m_t m =? 0) && negb (eph_is_out (ephemeral c))
+  && sole_output_canonical x && is_boundary (interval c) (anchor_height c).
 Definition ironwood_action_count (x : txin) (c : config) (m : manifest) : R Z :=
   let pad := if ironwood_is_canonical_crossing x c m then PAD_UNPADDED else PAD_DEFAULT in
   or_bundle (num_actions pad (i_ver x) (len (i_in x)) (len (i_out x) + m_i m)).
@@ -461,8 +462,113 @@ Definition count_pool (f : cv -> bool) (l : list cv) : Z := len (filter f l).
 Definition is_transparent_cv (c : cv) : bool := match c with CShielded _ _ _ => false | _ => true end.
 Definition is_pool_cv (p : pool) (c : cv) : bool := match c with CShielded q _ _ => pool_eqb p q | _ => false end.
 
+(** wallet_meta.map_or(1, ..) / the split policy's view of the wallet *)
+Definition target_change_count_of (c : config) (wants_t : bool) : R Z :=
+  if wants_t then Ok 1 else
+  match strat c with
+  | Single => Ok 1
+  | Multi target _ wm =>
+    let* nc := total_note_count wm in
+    Ok (Z.max (usize_sat_sub target (match nc with Some n => n | None => usize_max end)) 1)
+  end.
+
+Definition split_of (c : config) (wants_t : bool) (proposed : Z) : R Z :=
+  if wants_t then Ok 1 else
+  match strat c with
+  | Single => Ok 1
+  | Multi target min_split wm =>
+    let* nc := total_note_count wm in
+    let* tv := total_value wm in
+    Ok (split_count target min_split nc tv proposed)
+  end.
+
+Definition simple_case (wants_t : bool) (change_pool : pool) (change_memo : bool)
+  (split total_change total_fee : Z) : R (list cv * Z) :=
+  let '(q, r) := A.zat_div_with_remainder total_change split in
+  if wants_t then
+    Ok (if total_change =? 0 then [] else [CTransparent total_change], total_fee)
+  else
+    let* vs := split_values (Z.to_nat split) true q r in
+    Ok (map (fun v => CShielded change_pool v change_memo) vs, total_fee).
+
+(** the arms taken once the balance with the final fee is known *)
+Definition dust_decision (c : config) (wants_t : bool) (change_pool : pool) (change_memo : bool)
+  (total_in split total_change total_fee : Z) : R (list cv * Z) :=
+  let simple := simple_case wants_t change_pool change_memo split total_change total_fee in
+  let threshold := match dust_thr c with Some t => t | None => marginal (rule c) end in
+  if total_change <? threshold then
+    match dust_act c with
+    | Reject =>
+      if total_change =? 0 then simple
+      else
+        match A.zat_sub threshold total_change with
+        | None => Err (StrategyBalance A.Underflow)
+        | Some shortfall =>
+          let* req := or_overflow (A.zat_add total_in shortfall) in
+          Err (InsufficientFunds total_in req)
+        end
+    | AllowDustChange => simple
+    | AddDustToFee =>
+      let* fee_with_dust := or_overflow (A.zat_add total_change total_fee) in
+      let* ten := or_panic (A.zat_mul_u64 MINIMUM_FEE REASONABLE_FEE_MULTIPLE) in
+      let* reasonable_fee := or_overflow (A.zat_add total_fee ten) in
+      if reasonable_fee <? fee_with_dust then simple
+      else if change_memo then Ok ([CShielded change_pool 0 true], fee_with_dust)
+      else Ok ([], fee_with_dust)
+    end
+  else simple.
+
+(** the [match total_in.cmp(&total_out_with_min_fee)] *)
+Definition core_change (x : txin) (c : config) (sin : Z) (wants_t fully_transparent change_memo : bool)
+  (change_pool : pool) (target_change_count : Z) (target_counts : manifest)
+  (total_in subtotal_out min_fee total_out_with_min_fee : Z) : R (list cv * Z) :=
+  if total_in <? total_out_with_min_fee then
+    Err (InsufficientFunds total_in total_out_with_min_fee)
+  else if (total_in =? total_out_with_min_fee) && fully_transparent then
+    Ok ([], min_fee)
+  else
+    let* f2 := fee_for x c sin target_counts wants_t in
+    let max_fee := Z.max min_fee f2 in
+    let* total_out_with_max_fee := or_overflow (A.zat_add subtotal_out max_fee) in
+    let* split :=
+      split_of c wants_t (match A.zat_sub total_in total_out_with_max_fee with Some v => v | None => 0 end) in
+    let* total_fee :=
+      (if split <? target_change_count then fee_for x c sin (for_pool change_pool split) false
+       else Ok max_fee) in
+    let* total_out := or_overflow (A.zat_add subtotal_out total_fee) in
+    match A.zat_sub total_in total_out with
+    | None => Err (InsufficientFunds total_in total_out)
+    | Some total_change =>
+      dust_decision c wants_t change_pool change_memo total_in split total_change total_fee
+    end.
+
+Definition final_manifest (chg : list cv) : manifest :=
+  {| m_t := count_pool is_transparent_cv chg;
+     m_s := count_pool (is_pool_cv Sapling) chg;
+     m_o := count_pool (is_pool_cv Orchard) chg;
+     m_i := count_pool (is_pool_cv Ironwood) chg |}.
+
+(** ephemeral output appended, dummy-output counts recorded, [TransactionBalance::new] *)
+Definition finish (x : txin) (c : config) (chg0 : list cv) (fee_ : Z) : R balance :=
+  let chg := chg0 ++ (match eph_out_amount (ephemeral c) with Some v => [CEphemeral v] | None => [] end) in
+  let fm := final_manifest chg in
+  let* soc := sapling_output_count x (m_s fm) in
+  let* s_dummy := checked_sub_unwrap soc (len (s_out x) + m_s fm) in
+  let* oac := orchard_action_count x (m_o fm) in
+  let* o_dummy := checked_sub_unwrap oac (len (o_out x) + m_o fm) in
+  let* iac := ironwood_action_count x c fm in
+  let* i_dummy := checked_sub_unwrap iac (len (i_out x) + m_i fm) in
+  let* tot := or_overflow (A.zat_sum (map cv_value chg ++ [fee_])) in
+  Ok {| change := chg; fee := fee_; total := tot; dummies := (s_dummy, o_dummy, i_dummy) |}.
+
+Definition nu6_3_active (c : config) : bool :=
+  match nu6_3_height (network c) with Some h => h <=? target_height c | None => false end.
+
+Definition possible_change (c : config) (fully_transparent change_memo : bool) (target_counts : manifest) : list manifest :=
+  if fully_transparent || (match dust_act c with AddDustToFee => negb change_memo | _ => false end)
+  then [M_ZERO; target_counts] else [target_counts].
+
 Definition compute_balance (x : txin) (c : config) : R balance :=
-  let fr := rule c in
   let e := ephemeral c in
   let change_memo := memo c && negb (eph_is_in e) in
   let* nf := calculate_net_flows x e in
@@ -473,96 +579,19 @@ Definition compute_balance (x : txin) (c : config) : R balance :=
   let* sin := or_bundle (num_spends (s_type x) (len (s_in x))) in
   let* min_fee := fee_for x c sin M_ZERO false in
   let* total_out_with_min_fee := or_overflow (A.zat_add subtotal_out min_fee) in
-  let nu_active := match nu6_3_height (network c) with Some h => h <=? target_height c | None => false end in
   let change_pool :=
-    select_change_pool nf (fallback c) nu_active
+    select_change_pool nf (fallback c) (nu6_3_active c)
       (match A.zat_sub total_in total_out_with_min_fee with Some v => v | None => 0 end) in
-  (* wallet_meta.map_or(1, ..): [total_note_count] may panic on usize overflow *)
-  let* target_change_count :=
-    (if wants_t then Ok 1 else
-     match strat c with
-     | Single => Ok 1
-     | Multi target _ wm =>
-       let* nc := total_note_count wm in
-       Ok (Z.max (usize_sat_sub target (match nc with Some n => n | None => usize_max end)) 1)
-     end) in
+  let* target_change_count := target_change_count_of c wants_t in
   let target_counts :=
     if wants_t then {| m_t := 1; m_s := 0; m_o := 0; m_i := 0 |}
     else for_pool change_pool target_change_count in
   (* assert!(target_change_counts.total_shielded() == target_change_count) *)
   let* a_ok := (if wants_t || (total_shielded target_counts =? target_change_count) then Ok tt else Panic) in
   let* d_ok :=
-    (if pos (marginal fr) then
-       check_for_uneconomic_inputs x c
-         (if fully_transparent || (match dust_act c with AddDustToFee => negb change_memo | _ => false end)
-          then [M_ZERO; target_counts] else [target_counts])
+    (if pos (marginal (rule c)) then
+       check_for_uneconomic_inputs x c (possible_change c fully_transparent change_memo target_counts)
      else Ok tt) in
-  let* (chg, fee_) :=
-    (if total_in <? total_out_with_min_fee then
-       Err (InsufficientFunds total_in total_out_with_min_fee)
-     else if (total_in =? total_out_with_min_fee) && fully_transparent then
-       Ok ([], min_fee)
-     else
-       let* f2 := fee_for x c sin target_counts wants_t in
-       let max_fee := Z.max min_fee f2 in
-       let* total_out_with_max_fee := or_overflow (A.zat_add subtotal_out max_fee) in
-       let* split :=
-         (if wants_t then Ok 1 else
-          match strat c with
-          | Single => Ok 1
-          | Multi target min_split wm =>
-            let* nc := total_note_count wm in
-            let* tv := total_value wm in
-            Ok (split_count target min_split nc tv
-                  (match A.zat_sub total_in total_out_with_max_fee with Some v => v | None => 0 end))
-          end) in
-       let* total_fee :=
-         (if split <? target_change_count then fee_for x c sin (for_pool change_pool split) false
-          else Ok max_fee) in
-       let* total_out := or_overflow (A.zat_add subtotal_out total_fee) in
-       match A.zat_sub total_in total_out with
-       | None => Err (InsufficientFunds total_in total_out)
-       | Some total_change =>
-         let '(q, r) := A.zat_div_with_remainder total_change split in
-         let simple_case : R (list cv * Z) :=
-           if wants_t then
-             Ok (if total_change =? 0 then [] else [CTransparent total_change], total_fee)
-           else
-             let* vs := split_values (Z.to_nat split) true q r in
-             Ok (map (fun v => CShielded change_pool v change_memo) vs, total_fee) in
-         let threshold := match dust_thr c with Some t => t | None => marginal fr end in
-         if total_change <? threshold then
-           match dust_act c with
-           | Reject =>
-             if total_change =? 0 then simple_case
-             else
-               match A.zat_sub threshold total_change with
-               | None => Err (StrategyBalance A.Underflow)
-               | Some shortfall =>
-                 let* req := or_overflow (A.zat_add total_in shortfall) in
-                 Err (InsufficientFunds total_in req)
-               end
-           | AllowDustChange => simple_case
-           | AddDustToFee =>
-             let* fee_with_dust := or_overflow (A.zat_add total_change total_fee) in
-             let* ten := or_panic (A.zat_mul_u64 MINIMUM_FEE REASONABLE_FEE_MULTIPLE) in
-             let* reasonable_fee := or_overflow (A.zat_add total_fee ten) in
-             if reasonable_fee <? fee_with_dust then simple_case
-             else if change_memo then Ok ([CShielded change_pool 0 true], fee_with_dust)
-             else Ok ([], fee_with_dust)
-           end
-         else simple_case
-       end) in
-  let chg := chg ++ (match eph_out_amount e with Some v => [CEphemeral v] | None => [] end) in
-  let fm := {| m_t := count_pool is_transparent_cv chg;
-               m_s := count_pool (is_pool_cv Sapling) chg;
-               m_o := count_pool (is_pool_cv Orchard) chg;
-               m_i := count_pool (is_pool_cv Ironwood) chg |} in
-  let* soc := sapling_output_count x (m_s fm) in
-  let* s_dummy := checked_sub_unwrap soc (len (s_out x) + m_s fm) in
-  let* oac := orchard_action_count x (m_o fm) in
-  let* o_dummy := checked_sub_unwrap oac (len (o_out x) + m_o fm) in
-  let* iac := ironwood_action_count x c fm in
-  let* i_dummy := checked_sub_unwrap iac (len (i_out x) + m_i fm) in
-  let* tot := or_overflow (A.zat_sum (map cv_value chg ++ [fee_])) in
-  Ok {| change := chg; fee := fee_; total := tot; dummies := (s_dummy, o_dummy, i_dummy) |}.
+  let* cf := core_change x c sin wants_t fully_transparent change_memo change_pool
+               target_change_count target_counts total_in subtotal_out min_fee total_out_with_min_fee in
+  finish x c (fst cf) (snd cf).
